@@ -69,6 +69,12 @@ let () = main_loop (fun toks ->
               d := d';
               (match r with None -> "H=none" | Some (t, data) -> "H=" ^ string_of_z t ^ "." ^ show data)
           | ["Y"; now; _] -> d := gc (z_of_string now) !d; "Y"
+          | ["A"; i; _; _; _] when not (okn i) -> "BAD-OP"
+          | ["A"; i; now; t; h] ->
+              (* the per-sid lock makes gc's look-and-remove atomic: the racing request sees the directory as gc left it *)
+              let now = z_of_string now in
+              let (_, d1) = load now (nth_name i) (gc now !d) in
+              d := save (nth_name i) (z_of_string t) (payload h) d1; "A"
           | ["D"; i; now; ks] ->
               let acc = if ks = "-" then [] else List.map (fun k -> nat_of_int (int_of_string k)) (split_on ',' ks) in
               let (r, d') = load_short (z_of_string now) (nth_name i) acc !d in
